@@ -41,6 +41,8 @@ def thin(rng, sh):
 def gen_operand(rng, shape, unit):
     r = rng.random()
     k = rng.choice([2, -3, 0.5, -0.25, 4, 1, -1, 8, 1, 1.0])
+    if r < 0.05:
+        return {"num": rng.choice([16, -20, 100]), "np": "int8"}      # a numpy integer of a narrow type (its square does not fit)
     if r < 0.25:
         return {"num": k}
     if r < 0.4:
@@ -151,7 +153,7 @@ def operand_value(x, case):
     if x == "nddata_unit":
         return NDData(np.ones(case["shape"]), unit=u.ct)
     if "num" in x:
-        return x["num"]
+        return np.int8(x["num"]) if x.get("np") == "int8" else x["num"]
     if "arr" in x:
         return np.array(x["arr"], dtype=float).reshape(x["shape"])
     v = np.array(x["q"], dtype=float).reshape(x["shape"]) if x["shape"] else float(x["q"][0])
@@ -329,6 +331,16 @@ def run(case):
                     if not ok:
                         fails.append(f"standard deviations {got_q.ravel()[:3]} (uncertainty unit {cur.uncertainty.unit}, cube unit {cur.unit}), "
                                      f"expected the source's scaled / converted: {exp_q.ravel()[:3]}")
+            # a variance scales with the square of a bare numerical factor (whatever numerical type the factor has)
+            if case["unc"] == "var" and case["ops"] and all(o["op"] in ("mul", "rmul", "div") and isinstance(o.get("operand"), dict)
+                                                             and "num" in o["operand"] for o in case["ops"]):
+                expv = np.array(unc_arr, dtype=float)
+                for o in case["ops"]:
+                    kk = float(o["operand"]["num"]) ** 2
+                    expv = expv * kk if o["op"] != "div" else expv / kk
+                if cur.uncertainty is None or not np.allclose(np.asarray(cur.uncertainty.array, dtype=float), expv, rtol=1e-12):
+                    fails.append(f"variances {None if cur.uncertainty is None else np.asarray(cur.uncertainty.array).ravel()[:3]} after scaling by "
+                                 f"{[o['operand']['num'] for o in case['ops']]}, expected the source's times the squares: {expv.ravel()[:3]}")
             # sums and negation leave an uncertainty of any kind exactly as it is
             if case["unc"] and all(o["op"] in ("add", "radd", "sub", "rsub", "neg") for o in case["ops"]):
                 if cur.uncertainty is None or type(cur.uncertainty) is not type(cube.uncertainty):
